@@ -9,6 +9,7 @@ import (
 	"context"
 	"encoding/json"
 	"fmt"
+	"runtime/debug"
 	"sort"
 	"strings"
 	"sync/atomic"
@@ -815,6 +816,7 @@ func main() {
 		run.Finish()
 		return
 	}
+	debug.SetGCPercent(20) // every network allocates some 40 MiB of leveldb write buffers: keep the heap small
 	for _, jc := range corpus() {
 		runCase(run, jc)
 	}
